@@ -371,6 +371,8 @@ type c09Plan struct {
 	n0      int
 	epoch   uint64
 	startK  uint64 // start height = startK * epoch
+	rev     uint64 // revision number of the head (height 0 is only admitted with a non-zero revision)
+	emptyHead bool // the head announces an empty list: creation must fail
 	steps   int
 	tp      uint64
 	btStep  uint64
@@ -391,6 +393,9 @@ func (g *c09Gen) history(p c09Plan) {
 	start := p.startK * p.epoch
 	// the head is an epoch header; it carries the pending list
 	pend := g.nextSet(vals)
+	if p.emptyHead {
+		pend = nil
+	}
 	extra := g.rnd(32)
 	for _, a := range pend {
 		extra = append(extra, a.Bytes()...)
@@ -398,7 +403,7 @@ func (g *c09Gen) history(p c09Plan) {
 	extra = append(extra, make([]byte, 65)...)
 	sealer := vals[r.Rng.Intn(len(vals))]
 	head := &bsctypes.Header{
-		Height: clienttypes.NewHeight(0, start), ParentHash: g.rnd(32), UncleHash: c09UncleHash.Bytes(), Coinbase: sealer.Bytes(),
+		Height: clienttypes.NewHeight(p.rev, start), ParentHash: g.rnd(32), UncleHash: c09UncleHash.Bytes(), Coinbase: sealer.Bytes(),
 		Root: g.rnd(32), TxHash: g.rnd(32), ReceiptHash: g.rnd(32), Difficulty: []byte{2},
 		GasLimit: []uint64{30_000_000, 5000, 1_280_000, 40_000_000, 0x7fffffffffffffff}[r.Rng.Intn(5)], Time: g.bt - 10,
 		Extra: extra, MixDigest: make([]byte, 32), Nonce: make([]byte, 8),
@@ -406,7 +411,18 @@ func (g *c09Gen) history(p c09Plan) {
 	head.GasUsed = head.GasLimit / 2
 	g.seal(head, sealer)
 	if out := g.emit(c09CreateOp(g.chainID, g.epoch, g.tp, g.bt, c09AddrBytes(vals), head)); !strings.HasPrefix(out, "ok") {
+		switch {
+		case p.emptyHead:
+			r.Count("create.rejected.empty-list")
+		case start == 0 && p.rev == 0:
+			r.Count("create.rejected.height-zero")
+		default:
+			r.Count("create.rejected.unexpected")
+		}
 		return
+	}
+	if p.emptyHead || (start == 0 && p.rev == 0) {
+		r.Count("create.accepted.must-be-rejected") // (the oracle reports it: see c09_test.go create)
 	}
 	r.Count(fmt.Sprintf("hist.n0=%d", p.n0))
 	if start < uint64(p.n0/2+1) {
@@ -463,6 +479,46 @@ func (g *c09Gen) history(p c09Plan) {
 			return acc
 		}
 		advanced := false
+		// an epoch header announcing an EMPTY validator list (validly sealed, right turn): must be refused
+		if num%g.epoch == 0 && r.Rng.Intn(2) == 0 {
+			var el []common.Address
+			for _, a := range set {
+				if _, in := recent(a, n/2); !in {
+					el = append(el, a)
+				}
+			}
+			if len(el) > 0 {
+				if _, ok := g.keyOf[el[0]]; ok {
+					h := g.build(cs, el[0], nil)
+					g.seal(h, el[0])
+					if out := g.emit(c09UpdateOp(g.bt, g.chainID, h)); strings.HasPrefix(out, "ok") {
+						r.Count("epoch.empty-list.accepted")
+						continue
+					}
+					r.Count("epoch.empty-list.rejected")
+				}
+			}
+		}
+		// the edge of the window: the validator whose latest block is exactly floor(N/2) blocks back
+		// (right turn difficulty, so "recently signed" is the only reason to refuse it)
+		if n >= 2 && uint64(n/2) <= num && r.Rng.Intn(2) == 0 {
+			if who, ok := g.w.sealedBy[num-uint64(n/2)]; ok && c09Distinct(cs.Validators)[who] {
+				if dd, _ := recent(who, n/2); dd == uint64(n/2) {
+					if _, okk := g.keyOf[who]; okk {
+						acc := attempt("recent-at-half", who)
+						if n%2 == 0 {
+							r.Count("signer.recent-at-half.even")
+							if n <= 8 {
+								r.Count(fmt.Sprintf("signer.recent-at-half.N=%d", n))
+							}
+						}
+						if acc {
+							continue
+						}
+					}
+				}
+			}
+		}
 		if p.sweep || r.Rng.Intn(3) == 0 {
 			members := c09Distinct(cs.Validators)
 			c := r.Rng.Intn(5)
@@ -719,8 +775,9 @@ func (g *c09Gen) directed(name string, epoch, tp, start uint64, vals []common.Ad
 func (g *c09Gen) allDirected() {
 	k := g.directedKeys(9)
 	k21 := g.directedKeys(21)
-	g.directed("below-limit", 100, 999_999_999, 0, k[:2], k[0], 100, []c09Step{{bt: 103, signer: k[0], time: 103}})
-	g.directed("below-limit-21", 200, 999_999_999, 0, k21, k21[3], 100, []c09Step{
+	// number < limit: epoch 2, client created at height 2 (height 0-0 is refused by ClientState.Validate)
+	g.directed("below-limit", 2, 999_999_999, 2, k[:6], k[0], 100, []c09Step{{bt: 103, signer: k[0], time: 103}})
+	g.directed("below-limit-21", 2, 999_999_999, 2, k21, k21[3], 100, []c09Step{
 		{bt: 103, signer: k21[5], time: 103}, {bt: 106, signer: k21[3], time: 106}})
 	g.directed("expiry", 100, 5, 100, k[:6], k[0], 100, []c09Step{
 		{bt: 101, signer: k[1], time: 200}, {bt: 110, signer: k[2], time: 200}, {bt: 111, signer: k[0], time: 200}})
@@ -728,6 +785,21 @@ func (g *c09Gen) allDirected() {
 	g.directed("expiry-two", 100, 5, 100, k[:6], k[0], 100, []c09Step{
 		{bt: 101, signer: k[1], time: 100}, {bt: 102, signer: k[2], time: 200}, {bt: 110, signer: k[3], time: 200},
 		{bt: 111, signer: k[1], time: 200}})
+	// the edge of the window for even N: k1 seals 101, then again exactly N/2 blocks later (refused), k0 — N/2+1
+	// blocks after its block 100 — is accepted
+	for _, n := range []int{2, 4, 6, 8} {
+		steps := []c09Step{}
+		for i := 1; i <= n/2; i++ {
+			steps = append(steps, c09Step{bt: uint64(100 + 3*i), signer: k[i], time: uint64(100 + 3*i)})
+		}
+		t := uint64(100 + 3*(n/2+1))
+		steps = append(steps, c09Step{bt: t, signer: k[1], time: t, reject: true}, c09Step{bt: t, signer: k[0], time: t})
+		g.directed(fmt.Sprintf("window-edge-%d", n), 100, 999_999_999, 100, k[:n], k[0], 100, steps)
+	}
+	// an epoch header announcing no validators is refused; the same height with a list is accepted
+	g.directed("epoch-empty-list", 4, 999_999_999, 4, k[:3], k[0], 100, []c09Step{
+		{bt: 103, signer: k[1], time: 103}, {bt: 106, signer: k[2], time: 106}, {bt: 109, signer: k[0], time: 109},
+		{bt: 112, signer: k[1], time: 112, next: nil, reject: true}, {bt: 112, signer: k[1], time: 112, next: k[:3]}})
 	// single validator handing over to a different single validator: the epoch header is itself the switch point
 	g.directed("handover-1to1", 4, 999_999_999, 4, k[:1], k[0], 100, []c09Step{
 		{bt: 103, signer: k[0], time: 103}, {bt: 106, signer: k[0], time: 106}, {bt: 109, signer: k[0], time: 109},
@@ -741,7 +813,7 @@ func (g *c09Gen) allDirected() {
 		{bt: 118, signer: k[2], time: 118}, {bt: 121, signer: k[3], time: 121},
 		{bt: 124, signer: k[1], time: 124, next: k[4:5]}, {bt: 127, signer: k[2], time: 127},
 		{bt: 130, signer: k[3], time: 130, reject: true}, {bt: 130, signer: k[4], time: 130}})
-	g.directed("growth", 4, 999_999_999, 0, k[:3], k[0], 100, []c09Step{
+	g.directed("growth", 4, 999_999_999, 4, k[:3], k[0], 100, []c09Step{
 		{bt: 103, signer: k[1], time: 103}, {bt: 106, signer: k[0], time: 106}, {bt: 109, signer: k[1], time: 109},
 		{bt: 112, signer: k[2], time: 112, next: k}, {bt: 115, signer: k[1], time: 115}, {bt: 118, signer: k[0], time: 118}})
 }
@@ -782,10 +854,21 @@ func TestC09(t *testing.T) {
 	for i := 0; i < hist; i++ {
 		p := c09Plan{n0: g.size(), epoch: c09Epochs(r), tp: 999_999_999, btStep: 3, mutRate: 4}
 		switch r.Rng.Intn(10) {
-		case 0, 1: // start at height 0 / small heights: number < limit
-			p.startK = uint64(r.Rng.Intn(2))
-			if p.epoch > 12 {
-				p.epoch = uint64(2 + r.Rng.Intn(6))
+		case 0, 1: // small start heights: number < limit (height 0-0 is refused by Validate; 1-0 is admitted)
+			p.startK = 1
+			if p.epoch > 5 {
+				p.epoch = uint64(2 + r.Rng.Intn(4))
+			}
+			if p.n0 < 2*int(p.epoch)+2 {
+				p.n0 = 21 - r.Rng.Intn(4)
+			}
+			switch r.Rng.Intn(8) {
+			case 0:
+				p.startK = 0 // must be rejected
+			case 1, 2:
+				p.startK, p.rev = 0, 1
+			case 3:
+				p.emptyHead = true
 			}
 			p.sweep = true
 		case 2:
@@ -808,9 +891,9 @@ func TestC09(t *testing.T) {
 			p.sweep = true
 			p.n0 = []int{1, 1, 1, 2, 3}[r.Rng.Intn(5)]
 			p.epoch = uint64(2 + r.Rng.Intn(7))
-			p.startK = uint64(r.Rng.Intn(20))
+			p.startK = uint64(1 + r.Rng.Intn(20))
 		default:
-			p.startK = uint64(r.Rng.Intn(50))
+			p.startK = uint64(1 + r.Rng.Intn(50))
 		}
 		p.steps = 20 + r.Rng.Intn(40)
 		if p.handover {
